@@ -60,5 +60,11 @@ func (r *DecoratorResolver) ResolveIdent(file *ast.File, parent ast.Node, parent
 		return "", nil
 	}
 
+	if obj.Parent() != pkg.Scope() {
+		// not a package-level object (local variable, parameter, label...) -> never needs a
+		// qualified ident. Without this, ResolveLocalPath gives them the local package path.
+		return "", nil
+	}
+
 	return pkg.Path(), nil
 }
